@@ -671,6 +671,8 @@ fn gen_rules(f: &mut SynthFont, g: &mut Gen) {
     let n_in = 1 + g.below((pool.len() / 2).min(3));
     let (ins, outs) = pool.split_at(n_in);
     f.rules_processing_last = g.chance(1, 4);
+    // half of the rule lists are free of same-input conflicts by construction
+    let consistent = g.chance(1, 2);
     let n_rules = 1 + g.below(5);
     let grid = [-1.0, -0.75, -0.5, -0.25, 0.0, 0.25, 0.5, 0.75, 1.0];
     for ri in 0..n_rules {
@@ -687,7 +689,9 @@ fn gen_rules(f: &mut SynthFont, g: &mut Gen) {
                 if !use_axis && !(cs.is_empty() && ai == *var.last().unwrap()) { continue; }
                 let clampn = |v: f64| -> f64 { if v > 0.0 && a.d_above == 0.0 { 0.0 } else if v < 0.0 && a.d_below == 0.0 { 0.0 } else { v } };
                 let lo = clampn(grid[lo_i]); let hi = clampn(grid[(lo_i + span).min(grid.len() - 1)]);
-                let (lo, hi) = if lo <= hi { (lo, hi) } else { (hi, lo) };
+                let (mut lo, mut hi) = if lo <= hi { (lo, hi) } else { (hi, lo) };
+                // ranges have positive width
+                if lo >= hi { if a.d_above > 0.0 && hi < 1.0 { hi = 1.0; } else { lo = -1.0; } }
                 let (mn, mx) = match open { 0 => (None, Some(hi)), 1 => (Some(lo), None), _ => (Some(lo), Some(hi)) };
                 cs.push((ai, mn.map(|v| a.norm_to_design(v)), mx.map(|v| a.norm_to_design(v))));
             }
@@ -696,7 +700,8 @@ fn gen_rules(f: &mut SynthFont, g: &mut Gen) {
         let n_subs = 1 + rg.below(2.min(ins.len()));
         let mut subs: Vec<(String, String)> = vec![];
         for _ in 0..n_subs {
-            let a = ins[rg.below(ins.len())].clone(); let b = outs[rg.below(outs.len())].clone();
+            let ia = rg.below(ins.len()); let ob = rg.below(outs.len());
+            let a = ins[ia].clone(); let b = outs[if consistent { ia % outs.len() } else { ob }].clone();
             if !subs.iter().any(|(x, _)| *x == a) { subs.push((a, b)); }
         }
         f.rules.push(Rule { name: format!("rule{ri}"), condition_sets: sets, subs });
